@@ -10,6 +10,8 @@ mod c_bits;
 #[cfg(kani)]
 mod c_grid;
 #[cfg(kani)]
+mod c_errors;
+#[cfg(kani)]
 mod c_blend;
 #[cfg(kani)]
 mod c_icc;
